@@ -206,6 +206,13 @@ impl RecvWindow {
         // Check received packet integrity, as per the Matter Core spec
         self.check_data_integrity(hdr, payload, mtu)?;
 
+        if self.level == 0 {
+            // Every segment takes a slot of our window; none is left when the peer sends more than
+            // we granted (or sends before a window was negotiated at all)
+            warn!("RX data integrity failure: The peer is overrunning our receive window");
+            Err(ErrorCode::InvalidData)?;
+        }
+
         if let Some(msg_len) = hdr.get_msg_len() {
             // The segment carries the BTP header as well, so the SDU fits only if both do
             if msg_len as usize + hdr.len() <= mtu as usize && !hdr.is_final() {
